@@ -30,7 +30,8 @@ def coq_fquad(ks):
 
 class FQuadNumpy:
     """NumPy callable: (n, ...) -> (n, nclass); records every query when asked to"""
-    def __init__(self, ks, record=False):
+    def __init__(self, ks, record=False, squeeze_single=False):
+        self.squeeze_single = squeeze_single      # a model ending in np.squeeze: (C,) for a batch of one sample
         self.b = np.array([k["b"] for k in ks], dtype=np.float64)
         self.W = np.array([k["W"] for k in ks], dtype=np.float64)
         self.V = np.array([k["V"] for k in ks], dtype=np.float64)
@@ -48,6 +49,8 @@ class FQuadNumpy:
         for c, X in enumerate(self.X):
             for i, j, k in X:
                 out[:, c] += k * xf[:, i] * xf[:, j]
+        if self.squeeze_single and n == 1:
+            return out[0]
         return out
 
 
